@@ -23,7 +23,7 @@ theorem pad6_len (x : Int) (h0 : 0 ≤ x) (h : x < 1000000) : (pad 6 x.toNat).le
 theorem serStr_of_format (ty : Ty) (v : Int) (fields : List Field) (t : Bytes)
     (hl : Lexer.tryNew (Serde.picture ty) = .ok fields) (hf : Formatter.format ty v fields (some 32) = .ok t) :
     Serde.serStr ty v = .ok t := by
-  unfold Serde.serStr formatValue Serde.BUF_CAP
+  unfold Serde.serStr formatValue Serde.BUF_CAP SERDE_BUF_CAP
   simp only [hl, bind, Except.bind, hf]
 
 theorem dim_le31 (y m d : Int) (dd : d ≤ dim y m) : d ≤ 31 := by
